@@ -14,3 +14,18 @@ func VerifCrashPoint(name string) {
 		h(name)
 	}
 }
+
+// VerifReadFaultHook, when set, is asked at every VerifReadFault point, i.e.
+// before a node database backend reads a node from the underlying store
+// (verification harness only, build tag "verif"). A non-nil result is returned
+// to the caller of the read in place of the result of the read, the way an I/O
+// error of the store would be.
+var VerifReadFaultHook func(name string) error
+
+// VerifReadFault marks a point at which a read of the underlying store can fail.
+func VerifReadFault(name string) error {
+	if h := VerifReadFaultHook; h != nil {
+		return h(name)
+	}
+	return nil
+}
